@@ -1,5 +1,5 @@
 # replay of a bounded stand-in violation (C13): re-run native/c13_tdm.py
 import sys
-print('delays=[2, 3], leading identity bins per loop=[4, 3]: get_crop_value() = 5, in the hand-written loop the first 3 detected pulses are vacuum and pulse 3 carries light')
+print('N=[1, 1] bands measured in order [1, 0] timebins=2 shots=2: samples[0,0,1] identifies pulse 1, expected pulse 2 (band 0)')
 print('REPLAY-VIOLATION')
 sys.exit(1)
